@@ -5898,7 +5898,19 @@ def scalarise_local_tuples(fn):
                        and len(u.targets[0].elts) == n_ and not any(
                            isinstance(e, ast.Starred)
                            for e in u.targets[0].elts)]
-                if not unp or len(refs) != len(subs) + len(unp):
+                # k[:2] / k[1:] with literal bounds: a tuple of the elements
+                def _cint(e):
+                    return e is None or (isinstance(e, ast.Constant)
+                                         and isinstance(e.value, int)
+                                         and not isinstance(e.value, bool))
+                slcs = [n for n in ast.walk(fn) if isinstance(
+                    n, ast.Subscript) and isinstance(n.value, ast.Name)
+                    and n.value.id == k and isinstance(n.ctx, ast.Load)
+                    and isinstance(n.slice, ast.Slice)
+                    and n.slice.step is None and _cint(n.slice.lower)
+                    and _cint(n.slice.upper)]
+                if not (unp or slcs) or len(refs) != len(subs) + len(
+                        unp) + len(slcs):
                     continue
                 if any(isinstance(d, (ast.Lambda, ast.FunctionDef,
                                       ast.ListComp, ast.GeneratorExp,
@@ -5913,6 +5925,12 @@ def scalarise_local_tuples(fn):
                 for sb in subs:
                     _replace_in(fn, sb, ast.Name(
                         id=names[sb.slice.value % n_], ctx=ast.Load()))
+                for sl in slcs:
+                    lo = sl.slice.lower.value if sl.slice.lower else None
+                    hi = sl.slice.upper.value if sl.slice.upper else None
+                    _replace_in(fn, sl, ast.Tuple(elts=[
+                        ast.Name(id=nm, ctx=ast.Load())
+                        for nm in names[lo:hi]], ctx=ast.Load()))
                 for u in unp:
                     u.value = ast.copy_location(ast.Tuple(
                         elts=[ast.Name(id=nm, ctx=ast.Load())
